@@ -834,6 +834,29 @@ fail_resp:
   return;
 }
 
+/*
+ * Appendix B.2: the kid context is carried as a CBOR byte string.
+ *
+ * Returns 1 and the wrapped bytes in @p out if the CBOR head and the length
+ * it announces lie within @p wrapped, else 0.
+ */
+static int
+oscore_unwrap_kid_context(const coap_bin_const_t *wrapped,
+                          coap_bin_const_t *out) {
+  const uint8_t *ptr = wrapped->s;
+  size_t length = wrapped->length;
+  size_t head;
+
+  if (!ptr || length == 0)
+    return 0;
+  head = (ptr[0] & 0x1f) < 0x18 ? 1 : 1 + ((size_t)1 << (ptr[0] & 0x3));
+  if (length < head)
+    return 0;
+  out->length = oscore_cbor_get_element_size(&ptr, &length);
+  out->s = ptr;
+  return out->length <= length;
+}
+
 /* pdu contains incoming message with encrypted COSE ciphertext payload
  * function returns decrypted message
  * and verifies signature, if present
@@ -996,24 +1019,19 @@ coap_oscore_decrypt_pdu(coap_session_t *session,
                                   &rcp_ctx);
     if (!osc_ctx) {
       if (cose->kid_context.length > 0) {
-        const uint8_t *ptr;
-        size_t length;
+        coap_bin_const_t kid_context;
+
         /* Appendix B.2 protocol check - Is the recipient key_id known */
         osc_ctx = oscore_find_context(session->context,
                                       cose->key_id,
                                       NULL,
                                       session->oscore_r2 != 0 ? (uint8_t *)&session->oscore_r2 : NULL,
                                       &rcp_ctx);
-        ptr = cose->kid_context.s;
-        length = cose->kid_context.length;
-        if (ptr && osc_ctx && osc_ctx->rfc8613_b_2 &&
-            osc_ctx->mode == OSCORE_MODE_SINGLE) {
+        if (osc_ctx && osc_ctx->rfc8613_b_2 &&
+            osc_ctx->mode == OSCORE_MODE_SINGLE &&
+            oscore_unwrap_kid_context(&cose->kid_context, &kid_context)) {
           /* Processing Appendix B.2 protocol */
-          /* Need to CBOR unwrap kid_context */
-          coap_bin_const_t kid_context;
-
-          kid_context.length = oscore_cbor_get_element_size(&ptr, &length);
-          kid_context.s = ptr;
+          /* kid_context has been CBOR unwrapped */
           cose_encrypt0_set_kid_context(cose, (coap_bin_const_t *)&kid_context);
 
           if (session->oscore_r2 != 0) {
@@ -1114,14 +1132,15 @@ coap_oscore_decrypt_pdu(coap_session_t *session,
       sent_pdu = association->sent_pdu;
       if (session->b_2_step != COAP_OSCORE_B_2_NONE) {
         const uint8_t *ptr = cose->kid_context.s;
-        size_t length = cose->kid_context.length;
 
         if (ptr) {
           /* Need to CBOR unwrap kid_context */
           coap_bin_const_t kid_context;
 
-          kid_context.length = oscore_cbor_get_element_size(&ptr, &length);
-          kid_context.s = ptr;
+          if (!oscore_unwrap_kid_context(&cose->kid_context, &kid_context)) {
+            coap_log_warn("OSCORE: kid context is not a CBOR byte string\n");
+            goto error;
+          }
           cose_encrypt0_set_kid_context(cose, &kid_context);
         }
         if (ptr && !coap_binary_equal(osc_ctx->id_context, &cose->kid_context)) {
